@@ -64,6 +64,8 @@ PURE_METHODS = NOISE_METHODS | {
 }
 
 
+DISTINCT_PHI = False
+
 _PURE_LABEL = re.compile(r"\bself\b|\bitem\b|φ|loop\(|\.(take|pop|pop_front|pop_back|next|get|borrow|eat|peek|read|recv|insert|remove|push)\(|\b(?!new\(|from\(|default\(|from_slice\()[a-z_]+\([^)]*\)\.")
 OPTION_METHODS = {"or_else", "or", "filter", "ok_or", "ok_or_else", "is_some", "is_none", "is_ok", "is_err", "unwrap_or", "unwrap_or_else", "unwrap_or_default", "map_or", "map_or_else", "is_some_and", "is_ok_and", "is_none_or", "map", "and_then"}
 # name -> 'Option' | 'Result' for the crates' own functions whose declared return type is one (set by lib.ast.Ast)
@@ -1021,9 +1023,11 @@ class Run:
         carried = [n for n in self._assigned_locals(body, env) if n not in fresh]  # (the loop's own pattern variables are new in every iteration)
         exit_assigned = [n for n in carried if self._exit_assigned(body, n)]
         env2 = dict(env)
-        for n in carried:
+        for _i, n in enumerate(carried):
             if n not in exit_assigned:
-                env2[n] = ("unk", "\u03c6(%s)" % showv(env[n]))
+                # DISTINCT_PHI (off by default; switched on by a rule for one function at a time): loop-carried locals with the
+                # same initial value are told apart by their position - two counters that both start at 0 are phi1(0), phi2(0)
+                env2[n] = ("unk", "\u03c6%s(%s)" % ((_i + 1) if DISTINCT_PHI else "", showv(env[n])))
         if markers:
             self.act("loop-begin " + what)
         how = "end"
@@ -1251,6 +1255,11 @@ class Run:
                 return self.place_of(e["recv"], env)
             return "%s.%s(%s)" % (self.place_of(e["recv"], env), e["m"], ",".join(showv(self.eval(a, env)) for a in e["args"]))
         if k == "Index":
+            if DISTINCT_PHI:
+                try:
+                    return "%s[%s]" % (self.place_of(e["e"], env), showv(self.eval(e["i"], env)))
+                except Exception:  # noqa
+                    pass
             return "%s[..]" % self.place_of(e["e"], env)
         return show(e)
 
